@@ -187,19 +187,16 @@ Section EvalFacts.
       repeat split; [| |exact Ho4].
       + apply mem_sound_set; [apply mem_sound_store, Hm4|]. simpl. intros v E. injection E as <-. exact Hd.
       + unfold set_state. intros p v Hp. cbn [w_store with_store] in Hp.
-        revert p v Hp.
-        change (StoreSound (with_store
-                  (dset (info_path tc o) (FInfo (run_info tc o []))
-                     (if persisting (c_data tc)
-                      then dset (result_path tc o) (FValue (run (o_cls o) (persisted_reprs o) ins))
-                             (dset (log_path tc o) (FLog [lit "token"]) (w_store w4))
-                      else dset (log_path tc o) (FLog [lit "token"]) (w_store w4))) w4)).
-        apply (store_sound_dset_other (with_store _ w4)); [discriminate|].
-        destruct (persisting (c_data tc)).
-        * apply (store_sound_dset_value (with_store _ w4)).
-          -- eapply location_determines_denotation; eauto.
-          -- apply (store_sound_dset_other w4); [discriminate|exact Hs4].
-        * apply (store_sound_dset_other w4); [discriminate|exact Hs4].
+        destruct (str_eq_dec p (info_path tc o)) as [->|Hn1]; [rewrite dget_dset_same in Hp; discriminate|].
+        rewrite dget_dset_other in Hp by assumption.
+        assert (Hlog : forall q u, dget q (dset (log_path tc o) (FLog [run_token tc]) (w_store w4)) = Some (FValue u) ->
+                                   ideal q = Some u).
+        { intros q u Hq. destruct (str_eq_dec q (log_path tc o)) as [->|Hn3]; [rewrite dget_dset_same in Hq; discriminate|].
+          rewrite dget_dset_other in Hq by assumption. now apply Hs4. }
+        destruct (persisting (c_data tc)); [|now apply Hlog].
+        destruct (str_eq_dec p (result_path tc o)) as [->|Hn2].
+        * rewrite dget_dset_same in Hp. injection Hp as <-. eapply location_determines_denotation; eauto.
+        * rewrite dget_dset_other in Hp by assumption. now apply Hlog.
   Qed.
 End EvalFacts.
 
